@@ -5,11 +5,11 @@ from mc.core import Res
 PID = 'C17'
 LEVEL = 'exploration'
 RULE = ('every ordered pair (g1, g2) of HRGs from a bounded family over shared node ids v0,v1 and nonterminal-edge ids '
-        'e0,e1 (1-2 start rules out of 6 skeleton/labelling instances, 0-1 rule for X out of 4, one rule for Y, rules '
+        'e0,e1 (1-2 start rules out of 7 skeleton/labelling instances, one with an isolated internal node, 0-1 rule for X out of 4, one rule for Y, rules '
         'for a binary nonterminal W with externals in both orders) x nonterminal naming schemes (plain; the '
         '"X"+"Y,Z" / "X,Y"+"Z" clash; a terminal literally named like a pair; all natural pair names and their _1 variants taken; a shared terminal '
         'name with equal / different type; a production listed twice) x edge insertion order reversed in g2: the multiset of derivations (depth <= d) of '
-        'conjoin_hrgs(g1,g2) must equal the multiset of conjoinable pairs of derivations, computed by the harness '
+        'conjoin_hrgs(g1,g2) (each rule instance identified by its terminals, node ids, external ids and nonterminal-edge ids) must equal the multiset of conjoinable pairs of derivations, computed by the harness '
         'from g1 and g2; paired names distinct and fresh; ValueError exactly for a genuine terminal conflict. '
         'Non-trivial = pair with >= 1 paired derivation.')
 ASSUMPTIONS = ['terminal edges of g1 and g2 carry implicit (distinct) ids', 'derivations compared to depth d only']
@@ -23,6 +23,7 @@ S_RULES = [  # (node ids, ext, [(eid, att, nt role)])
     (('v0', 'v1'), (), (('e0', ('v0',), 'Y'), ('e1', ('v1',), 'X'))),
     (('v0', 'v1'), (), (('e0', ('v0',), 'X'), ('e1', ('v1',), 'X'))),
     (('v0', 'v1'), (), (('e0', ('v0', 'v1'), 'W'),)),
+    (('v0', 'v1'), (), (('e0', ('v0',), 'X'),)),        # v1 is internal and touched by no edge of either grammar
 ]
 X_RULES = [
     (('v0',), ('v0',), ()),
@@ -36,7 +37,7 @@ ARITY = {'S': 0, 'X': 1, 'Y': 1, 'W': 2}
 
 
 def bounds(tier):
-    return {'derivation_depth': 3 if tier == 'quick' else 4, 'start_rules': '1-2 of 6', 'X_rules': '0-1 of 4',
+    return {'derivation_depth': 3 if tier == 'quick' else 4, 'start_rules': '1-2 of 7', 'X_rules': '0-1 of 4',
             'naming_schemes': 7, 'edge_orders': 2}
 
 
@@ -124,6 +125,10 @@ def tkey(r):
     return tuple(sorted(e.label.name for e in r.rhs.edges() if e.label.is_terminal))
 
 
+def nkey(r):
+    return (tuple(sorted(v.id for v in r.rhs.nodes())), tuple(v.id for v in r.rhs.ext))
+
+
 def skel(r):
     return (frozenset((v.id, v.label.name) for v in r.rhs.nodes()), tuple(v.id for v in r.rhs.ext),
             frozenset((e.id, tuple(v.id for v in e.nodes)) for e in r.rhs.edges() if e.label.is_nonterminal))
@@ -146,7 +151,7 @@ def derivs(g, nt, depth, memo):
                 mult = 1
                 for _, m in combo:
                     mult *= m
-                out[(tkey(r), tuple((e.id, kk) for e, (kk, _) in zip(nts, combo)))] += mult
+                out[(tkey(r), nkey(r), tuple((e.id, kk) for e, (kk, _) in zip(nts, combo)))] += mult
     memo[k] = out
     return out
 
@@ -167,7 +172,7 @@ def paired(g1, g2, n1, n2, depth, memo):
                     mult = 1
                     for _, m in combo:
                         mult *= m
-                    out[(tuple(sorted(tkey(r1) + tkey(r2))), tuple((e.id, kk) for e, (kk, _) in zip(a, combo)))] += mult
+                    out[(tuple(sorted(tkey(r1) + tkey(r2))), nkey(r1), tuple((e.id, kk) for e, (kk, _) in zip(a, combo)))] += mult
     memo[k] = out
     return out
 
